@@ -11,20 +11,20 @@ CHECK = {'level': 'exploration',
  'parts': [{'name': 'sched', 'pkg': 'db', 'run': '^TestVerif_C09_Sched$', 'timeout_q': 500, 'timeout_t': 3000},
            {'name': 'race', 'pkg': 'db', 'race': True, 'run': '^TestVerif_C09_Race$', 'timeout_q': 500, 'timeout_t': 3000}],
  'min_evals': 300,
- 'min_counters': {'sched.ondemand.import_commits': 150, 'sched.ondemand.latest_external_write_checked_imported': 70, 'sched.ondemand.idempotence_reads': 1000,
-                  'sched.ondemand.external_write_in_gateway_write_cas_window': 10, 'sched.ondemand.imports_committed_by_gw': 40, 'sched.ondemand.imports_committed_by_rd': 40,
-                  'sched.schedfeed.import_commits': 150, 'sched.schedfeed.feed_events_delivered': 700, 'sched.schedfeed.feed_events_redelivered': 60,
-                  'sched.schedfeed.idempotence_redeliveries': 500, 'sched.schedfeed.idempotence_races': 100, 'sched.schedfeed.import_cancel_cas': 200,
-                  'sched.schedfeed.latest_external_write_checked_imported': 70, 'sched.schedfeed.external_write_in_import_cas_window': 15,
-                  'sched.auto.import_commits': 80, 'sched.auto.imports_committed_by_listener': 50, 'sched.auto.events_processed_by_real_listener': 300,
-                  'sched.auto.latest_external_write_checked_imported': 40, 'sched.auto.idempotence_redeliveries': 250,
-                  'sched.own-auto.gateway_writes_acknowledged': 70, 'sched.own-auto.events_processed_by_real_listener': 100,
-                  'sched.own-schedfeed.gateway_writes_acknowledged': 70, 'sched.own-schedfeed.feed_events_delivered': 70,
-                  'sched.own-ondemand.gateway_writes_acknowledged': 30,
-                  'sched.ondemand.same_revision_rewrites_over_pending_external_write': 3, 'sched.schedfeed.same_revision_rewrites_over_pending_external_write': 4,
-                  'sched.ondemand.gateway_resync_rewrites': 8, 'sched.schedfeed.gateway_resync_rewrites': 8, 'sched.own-auto.gateway_resync_rewrites': 6,
-                  'sched.ondemand.changes_feed_entries_checked': 100, 'sched.schedfeed.changes_feed_entries_checked': 100, 'sched.auto.changes_feed_entries_checked': 50,
-                  'race.race.import_commits': 40, 'race.race.events_processed_by_real_listener': 150, 'race.race.latest_external_write_checked_imported': 20},
+ 'min_counters': {'sched.ondemand.import_commits': 70, 'sched.ondemand.latest_external_write_checked_imported': 43, 'sched.ondemand.idempotence_reads': 360,
+                  'sched.ondemand.external_write_in_gateway_write_cas_window': 4, 'sched.ondemand.imports_committed_by_gw': 14, 'sched.ondemand.imports_committed_by_rd': 20,
+                  'sched.schedfeed.import_commits': 84, 'sched.schedfeed.feed_events_delivered': 356, 'sched.schedfeed.feed_events_redelivered': 35,
+                  'sched.schedfeed.idempotence_redeliveries': 279, 'sched.schedfeed.idempotence_races': 30, 'sched.schedfeed.import_cancel_cas': 146,
+                  'sched.schedfeed.latest_external_write_checked_imported': 42, 'sched.schedfeed.external_write_in_import_cas_window': 15,
+                  'sched.auto.import_commits': 38, 'sched.auto.imports_committed_by_listener': 34, 'sched.auto.events_processed_by_real_listener': 143,
+                  'sched.auto.latest_external_write_checked_imported': 22, 'sched.auto.idempotence_redeliveries': 132,
+                  'sched.own-auto.gateway_writes_acknowledged': 39, 'sched.own-auto.events_processed_by_real_listener': 66,
+                  'sched.own-schedfeed.gateway_writes_acknowledged': 36, 'sched.own-schedfeed.feed_events_delivered': 43,
+                  'sched.own-ondemand.gateway_writes_acknowledged': 18,
+                  'sched.ondemand.same_revision_rewrites_over_pending_external_write': 2, 'sched.schedfeed.same_revision_rewrites_over_pending_external_write': 3,
+                  'sched.ondemand.gateway_resync_rewrites': 4, 'sched.schedfeed.gateway_resync_rewrites': 6, 'sched.own-auto.gateway_resync_rewrites': 4,
+                  'sched.ondemand.changes_feed_entries_checked': 56, 'sched.schedfeed.changes_feed_entries_checked': 55, 'sched.auto.changes_feed_entries_checked': 27,
+                  'race.race.import_commits': 28, 'race.race.events_processed_by_real_listener': 103, 'race.race.latest_external_write_checked_imported': 14},
  'race_files': ['db/import.go', 'db/import_listener.go', 'db/document.go', 'db/crud.go', 'db/change_cache.go'],
  'race_state': ['importStats', 'collections', 'terminator', 'alreadyImportedDoc', 'existingDoc', 'SyncData', 'MetadataOnlyUpdate'],
  'assumptions': ['the version log is a harness-owned DCP feed on the un-hooked rosmar bucket (every committed version with body and xattrs, ordered by CAS; the original '
